@@ -96,7 +96,20 @@ def main():
             confirmed = None
             ent['detail'] += f' (driver error: {e!r})'
         ent['seconds'] = time.time() - t1
-        if confirmed is not None:
+        crashed = None
+        try:
+            import json as _json
+            nat = _json.load(open(_path)).get('native') if _path else None
+            if isinstance(nat, dict) and nat.get('confirmed') is None:
+                crashed = str(nat.get('error') or 'no verdict line')[-300:]
+        except Exception:
+            pass
+        if crashed is not None:
+            # the battery itself did not finish (traceback, no verdict): that is no verdict, never "held"
+            ent['verdict'] = 'undecided'
+            ent['detail'] += f' (the native battery did not produce a verdict: {crashed})'
+            res.obligations[name] = ent
+        elif confirmed is not None:
             ent['verdict'] = 'refuted' if confirmed else 'discharged'
             res.obligations[name] = ent
     if a.dump_names:
